@@ -192,6 +192,7 @@ type syncConfig struct {
 	concurrent int
 	events     []string // trigger | extend | reorg
 	confirmErr []int    // heights at which the processor's ConfirmTx fails once (transient collaborator error)
+	fetchErr   int      // > 0: the store's FetchBlockTxIDs fails once, at this call (transient storage error during the walk-back)
 	forkAt     int
 	forkLen    int
 }
@@ -211,6 +212,9 @@ func (c syncConfig) name() string {
 	}
 	if len(c.confirmErr) > 0 {
 		s += fmt.Sprintf("-confirm-error-at%v", c.confirmErr)
+	}
+	if c.fetchErr > 0 {
+		s += fmt.Sprintf("-fetch-error-at-call-%d", c.fetchErr)
 	}
 	if len(c.events) > 0 {
 		s += "+" + strings.Join(c.events, "+")
@@ -244,7 +248,7 @@ func syncScenario(c syncConfig) func() func() []string {
 		for _, h := range c.confirmErr {
 			proc.failConfirmAt[h]++
 		}
-		store := &recStore{blocks: map[bitcoin.Hash32]bool{}}
+		store := &recStore{blocks: map[bitcoin.Hash32]bool{}, failFetchAt: c.fetchErr}
 		for _, h := range c.processed {
 			store.blocks[chain.main[h-1].hash] = true
 		}
@@ -279,6 +283,10 @@ func syncScenario(c syncConfig) func() func() []string {
 				defer events.Done()
 				switch ev {
 				case "trigger":
+					nm.TriggerBlockSynchronize(bg)
+				case "trigger-later":
+					// a new header arrives a minute later, when whatever the first round did is over
+					vsched.Sleep(time.Minute)
 					nm.TriggerBlockSynchronize(bg)
 				case "extend":
 					hc := chain.main[c.length].header.Copy()
@@ -452,6 +460,13 @@ func c05Scenarios(thorough bool) []*scenario {
 	// a transient error of the transaction processor while a block is being confirmed: the block is
 	// asked for again, and is not on record as processed in the meantime
 	add(syncConfig{length: 3, start: 1, confirmErr: []int{2}}, 0)
+	// a transient storage error during the walk-back ends the round with an error; the next
+	// trigger (a minute later) must start a round that processes what is owed
+	for call := 1; call <= 3; call++ {
+		add(syncConfig{length: 3, start: 1, fetchErr: call, events: []string{"trigger-later"}}, 0)
+	}
+	add(syncConfig{length: 3, start: 1, processed: []int{1}, fetchErr: 1, events: []string{"trigger-later"}}, 0)
+	add(syncConfig{length: 3, start: 1, fetchErr: 1, events: []string{"trigger", "trigger-later"}}, 0, 1)
 	// one healthy but slow source and nobody else to ask: the reader keeps waiting for it (every
 	// further request for the block finds no node), and goes on when the block arrives
 	add(syncConfig{length: 2, start: 1, concurrent: 2, script: map[string][]string{"a1": {"slow", "none*"}}}, 0)
